@@ -254,6 +254,7 @@ static long run_once(const Plan* p, int counting, long k, long k2) {
     env_make(&e, p); e.counting = counting; e.wrapmode = k_scen[S].wrapmode;
     sim_alloc_reset(); sim_wrap_reset();
     sim_sched_cfg_from_plan(&cfg, p); sim_sched_reset(&cfg);
+    sim_hooks_reset(p->seed); if (plan_get(p, "stall_site", 0)) sim_hook_set_stall((int)plan_get(p, "stall_site", 0), (long)plan_get(p, "stall_nth", 1), (long)plan_get(p, "stall_len", 1000));
     if (!e.wrapmode) arm(&e, k, k2);
     else { /* trainers arm themselves around the call */ }
     k_scen[S].fn(&e);
@@ -286,6 +287,11 @@ static void gen(Plan* p, Rng* r0, int tier, long idx) {
     if (k_scen[S].needs_mt ? (v & 1) : rng_coin(&r, 1, 4)) plan_set(p, "ldm", 1);   /* MT scenarios alternate LDM on/off by variant: workers allocate sequence buffers only with LDM */
     if (rng_coin(&r, 1, 3)) plan_set(p, "wlog", rng_range(&r, 12, 22));
     plan_set(p, "train_opt", (int64_t)rng_below(&r, 2));
+    /* MT scenarios, variants 2,3 mod 4: one worker is descheduled right after taking its n-th job / right after its serial step, so
+     * that the failing allocation meets jobs that are still waiting for their turn (stalled-thread fault, DESIGN 11.2) */
+    if (k_scen[S].needs_mt && (v & 2)) { plan_set(p, "stall_site", 1 + (int64_t)rng_below(&r, 2)); plan_set(p, "stall_nth", 1 + (int64_t)rng_below(&r, 5)); plan_set(p, "stall_len", rng_range(&r, 200, 8000));
+        /* with long-distance matching: enough input for the round buffer to wrap (window 1 MiB + (workers + 3) jobs of 512 KiB) */
+        if (plan_get(p, "ldm", 0)) { plan_set(p, "wlog", 20); plan_set(p, "in_size", rng_range(&r, 2900 << 10, 4600 << 10)); plan_set(p, "level", rng_range(&r, 1, 3)); } }
     plan_set(p, "train_threads", rng_coin(&r, 1, 2) ? 1 : rng_range(&r, 2, 3));
     { Rng rs; rng_seed(&rs, sim_mix64(g_sim_root + (uint64_t)S * 31 + (uint64_t)v * 17), "c13sched"); sim_sched_plan_defaults(p, &rs, 0); }
     plan_set(p, "k_eff", 0);
